@@ -99,3 +99,24 @@ claimed["C01"] = (
  "Decides: every % with a possibly negative dividend and sign-sensitive use sits in floorMod, no timestamp is narrowed to int32 before %, the slot index is floorMod by the point count; every consumer of fetchRawPoints passes the raw slots through a stale-lap filter (loop comparing stored time for (in)equality with an expected time advanced by the step; mismatch blanked to NaN or dropped) called with the read's start interval and archive before any value is used; every point reaching putPointAt has a Time produced by intervalForWrite (directly, via an aligning slice builder, or via a parameter all callers fill so). Necessary structural conditions of C01.",
  "Not decided: the ring arithmetic as numbers, wrap-around loop bounds of fetchRawPoints, page-boundary behaviour of the cache, history-quantified behaviour.",
  "DESIGN.md 5 (C01)")
+
+# rules added after the mutation campaigns (DESIGN.md 10.8): appended to the level texts above
+_extra = {
+ "C02": "Also: the loop of propagate over the touched slots is left only when they are exhausted or by a failing return (a slot without known values skips itself, not the rest).",
+ "C03": "Also: the per-archive loop of UpdatePointsForArchive and the per-point loop of archiveUpdateMany are left only when exhausted or by a failing return.",
+ "C08": "Also decided by decision diagrams: PointsList.AllEmpty (true iff every list is empty), TimeSeriesList.Diff/DiffExcludeSrcNaN (element i is the matching result of DiffPoints*(tl[i], ul[i])), the length guard of DiffPoints*, ArchiveInfo(List).Equal and TimeSeries.EqualTimeRangeAndStep (true iff all parts equal); until is Until or, when 0, the clock reading; single-file mode passes SrcRelPath and DestRelPath (SrcRelPath when empty); the glob loop visits every file.",
+ "C09": "Also decided by decision diagrams: the predicates listed under C08, WrapFileNotExistError (wraps exactly when os.IsNotExist) and AsFileNotExistError; until and destination-path defaults of diff; the verdict loop goes on after a difference.",
+ "C10": "Also: file 0 initialises the accumulator and files 1.. are added (the test on the file index decides which store runs); the sum command reads sumWhisperFile(SrcBase, item, SrcPattern, ArchiveID, From, until, now) for every item of globItems(SrcBase, ItemPattern) with until defaulting to the clock and prints what it read; the item loop visits every item.",
+ "C11": "Also: the predicates listed under C08/C09, the until defaults of sum-copy and sum-diff, and both item loops visit every item.",
+ "C12": "Also: isBaseURL is true iff the base starts with http:// or https:// (decision diagram); the base directory is the first element of every filepath.Join in package cmd; wrapHandler answers a handler failure with an error response on every path and appends nothing to a success, httpError.WriteTo sends its status code.",
+ "C14": "Also: the slice a decoder loop fills is made with the loop's count before the loop; the retry buffer of readHeader is at least WantedBufSize long; TimeSeries.TakeFrom rejects only until < from and step <= 0 among what the table lists and accepts the all-zero series written for an absent one (decision diagram).",
+ "C16": "Also: from the failure edge of a tested call no path reaches a success return without touching the error; a tested error is not returned on its own nil edge; an error stored into a named result is read before it is overwritten; withTextOutWriter and runSubcommand run the body unless they return an error known non-nil, test the open error first, keep the body's error over a nil finish error and store a finish failure; every success return of newTextOutWriter carries a finish function, and the file's finish flushes.",
+ "C18": "Also decided: the time filter of view-raw keeps a point iff (from == 0 or t > from) and t <= until (until + step when until == from), as a truth table over sign valuations; view-raw reads (SrcBase, SrcRelPath, ArchiveID) and filters what it read by (From, until); until defaults as for copy; each label of the header lines is fed from the field it names.",
+ "C19": "Also: ArchiveInfoList.String, evaluated for three archives, writes e0 , e1 , e2.",
+ "C20": "Also decided (decision diagrams and polynomial normal form): slot i of N is at until.Truncate(step) - (N-1-i)*step; randomValWithHighSum adds exactly the finer values truncating to t, stops only past t and adds N*Intn(highRndMax+1) only for slots older than the first finer point; randomPoints takes the covered start from the finer points iff they exist and start before until; randomPointsList chains archive k-1 into archive k with bound max*step/step_0; every flag.Value.Set stores what it parsed.",
+}
+for _k, _v in _extra.items():
+    _t = claimed[_k]
+    claimed[_k] = (_t[0], _t[1] + " " + _v, _t[2], _t[3])
+claimed["C18"] = (claimed["C18"][0], claimed["C18"][1], "Not decided: inclusion relations between view and view-raw output for every content.", claimed["C18"][3])
+claimed["C20"] = (claimed["C20"][0], claimed["C20"][1], "Not decided: the numeric values themselves (the bound and the sums follow from the decided formulas only for layouts whose steps divide, which C07 guarantees).", claimed["C20"][3])
